@@ -18,6 +18,22 @@ pub struct GCase {
     /// used for every second input (properties that look at positions)
     #[serde(default)]
     pub lines: bool,
+    /// 0 = default whitespace skipping; 1..4 = Layout rule templates (whitespace / + line
+    /// comments / + nested block comments / non-empty variant). Honoured by the properties
+    /// that say so in their rule; the others ignore it.
+    #[serde(default)]
+    pub layout_mode: u8,
+}
+
+pub fn layout_kind_of(mode: u8) -> Option<crate::spec::LayoutKind> {
+    use crate::spec::LayoutKind;
+    match mode {
+        0 => None,
+        1 => Some(LayoutKind::Ws),
+        2 => Some(LayoutKind::WsLine),
+        3 => Some(LayoutKind::WsLineBlock),
+        _ => Some(LayoutKind::WsLineBlockPlus),
+    }
 }
 
 pub fn gcase(
@@ -25,8 +41,13 @@ pub fn gcase(
     ninputs: std::ops::Range<usize>,
     tape_len: usize,
 ) -> BoxedStrategy<GCase> {
-    (gen::g_bnf(p), gen::tapes(ninputs, tape_len), proptest::bool::ANY)
-        .prop_map(|(spec, tapes, lines)| GCase { spec, tapes, lines })
+    (
+        gen::g_bnf(p),
+        gen::tapes(ninputs, tape_len),
+        proptest::bool::ANY,
+        prop_oneof![8 => Just(0u8), 1 => Just(1u8), 1 => Just(2u8), 1 => Just(3u8), 2 => Just(4u8)],
+    )
+        .prop_map(|(spec, tapes, lines, layout_mode)| GCase { spec, tapes, lines, layout_mode })
         .boxed()
 }
 
